@@ -177,6 +177,7 @@ fn generate_track(track: &Track) -> Vec<u8> {
 pub fn generate(song: &mut Song) -> Vec<u8> {
     let midi_format = 1;
     let mut res: Vec<u8> = vec![];
+    super::runner::flush_tie_notes(song);
     song.play_from_all_track();
     song.normalize_and_sort();
     // header
